@@ -414,7 +414,7 @@ def splice_fn(text, spec):
         hits = [m for m in re.finditer(rx, msk[body + 1:end])]
         if len(hits) < k:
             raise ExtractError("lost anchor: /%s/ #%d not found in function body" % (rx, k))
-        pos = body + 1 + hits[k - 1].start()
+        pos = body + 1 + (hits[k - 1].start() if where == "before" else max(hits[k - 1].start(), hits[k - 1].end() - 1))
         if where == "before":
             ls = text.rfind("\n", 0, pos) + 1
             edits.append((ls, ls, txt.rstrip() + "\n"))
